@@ -1201,7 +1201,7 @@ fn _assert_value_tree<T: ValueTree>() {}
 // byte-level, coverage-guided fuzzing of the same generators and oracles (libFuzzer, thorough tier)
 
 /// Properties whose input domain is a byte string: these have a raw-bytes entry (`props::fuzz_bytes`) and a libFuzzer target.
-pub const FUZZABLE: [&str; 2] = ["C18", "C19"];
+pub const FUZZABLE: [&str; 4] = ["C04", "C18", "C19", "C20"];
 
 /// Byte-level entry of a property: judges one input with the oracle of the campaign it names.
 pub type FuzzFn = fn(&[u8]) -> Option<FuzzOutcome>;
@@ -1242,8 +1242,12 @@ pub fn fuzz_entry(prop: &str, run: PropFn, data: &[u8]) {
     }
 }
 
-fn fuzz_runs_per_job(_prop: &str) -> u64 {
-    400_000
+fn fuzz_runs_per_job(prop: &str) -> u64 {
+    match prop {
+        // every input sets up an in-memory yamux pair on a paused runtime
+        "C04" => 40_000,
+        _ => 400_000,
+    }
 }
 
 /// Thorough tier: build the libFuzzer target of this property, run 16 independent processes with a fixed number of runs
